@@ -71,7 +71,12 @@ def run(chk):
         chk.touched(b)
     # analysed through their inlined views: private helpers (read_array, set_serialized_extensions ...) are part of them
     from . import inline
-    keep12 = (lambda cal: any(names.is_(cal.path, n) for n in ("AttestedCredentialData::from_reader", "AttestedCredentialData::new")),)
+    # (the attested-credential-data encoder — whatever it is called: the private function taking the record by value — stays a
+    # call in the views and is expanded as a byte-building call where the layout is read)
+    def _acd_encoder(cal):
+        tys = [(cal.j["locals"][i].get("ty") or "") for i in range(1, cal.j.get("arg_count", 0) + 1)]
+        return len(tys) == 1 and tys[0].replace("&", "").strip().endswith("AttestedCredentialData")
+    keep12 = (lambda cal: any(names.is_(cal.path, n) for n in ("AttestedCredentialData::from_reader", "AttestedCredentialData::new")) or _acd_encoder(cal),)
     tv, fs, fr, nw = (inline.inlined(p, b, keep=keep12) for b in (tv, fs, fr, nw))
 
     # ---------------- R1
